@@ -19,10 +19,10 @@ import (
 // C09 - diff reports exactly the slots that differ.
 type DiffPair struct {
 	// SrcLink: the source path is a symbolic link to the real file
-	SrcLink bool   `json:"src_link,omitempty"`
-	Rel  string    `json:"rel"`
-	Src  *FileSpec `json:"src,omitempty"`  // nil: missing
-	Dest *FileSpec `json:"dest,omitempty"` // nil: missing
+	SrcLink bool      `json:"src_link,omitempty"`
+	Rel     string    `json:"rel"`
+	Src     *FileSpec `json:"src,omitempty"`  // nil: missing
+	Dest    *FileSpec `json:"dest,omitempty"` // nil: missing
 	// DestExtra is applied to a destination that starts as an exact copy of the source
 	DestFromSrc bool        `json:"dest_from_src,omitempty"`
 	DestExtra   []SlotWrite `json:"dest_extra,omitempty"`
